@@ -54,9 +54,21 @@ type bsim struct {
 	extPrefix    []string // per module: what external paths are prefixed with
 	refErrors    []refError
 	filterTypes  []string
+	// cliRoot: the workspace written to disk for runs that also go through the command line;
+	// cliSite: the image being checked came from there
+	cliRoot string
+	cliSite bool
+	// cliModDir[i]: directory of module i below the workspace root; cliInput: what is given to the
+	// command (the directory, or an archive with #subdir); cliFlagRoot: what --path values start with
+	cliModDir   []string
+	cliInput    string
+	cliFlagRoot string
 	// withFormatDiff: this run also produces the `buf format -d` output
 	withFormatDiff bool
-	faultKind      string // which kind of operation may fail in the current execution ("any": all)
+	// withFormatBroken: this run also formats a tree with one unparsable file and compares the failure text
+	withFormatBroken bool
+	faultKind        string // which kind of operation may fail in the current execution ("any": all)
+	shortReads       bool   // the current execution's readers may serve short reads
 	// excludeSourceInfo: the current pipeline execution builds without source info (prelude only)
 	excludeSourceInfo bool
 	lintExcept        []string
@@ -113,7 +125,7 @@ func (p *readPolicy) Decide(s *sched.Sim, op sched.Op) sched.Decision {
 	if op.Kind == "get" {
 		m.arrival = append(m.arrival, op.Path)
 	}
-	if m.faults && op.Kind == "read" && s.Tape.Draw("shortread?", 4) == 3 {
+	if (m.faults || m.shortReads) && op.Kind == "read" && s.Tape.Draw("shortread?", 4) == 3 {
 		// not a failure: a reader may hand out fewer bytes than asked for; the build goes on
 		return sched.Decision{Fault: "short-read", Arg: s.Tape.Draw("shortreadn", 4096)}
 	}
@@ -206,7 +218,7 @@ func (m *bsim) buildModuleSet(ctx context.Context, files map[string]string) (buf
 				panic(err)
 			}
 		}
-		bucket := &simfs.Bucket{S: m.s, U: mem, Name: fmt.Sprintf("m%d", i), PermuteWalk: m.permuteWalk, YieldReads: m.faults,
+		bucket := &simfs.Bucket{S: m.s, U: mem, Name: fmt.Sprintf("m%d", i), PermuteWalk: m.permuteWalk, YieldReads: m.faults || m.shortReads,
 			// protocompile probes for a custom descriptor.proto inside a sync.Once that every compile task waits on
 			NoYield: func(p string) bool { return p == "google/protobuf/descriptor.proto" }}
 		var opts []bufmodule.LocalModuleOption
@@ -482,7 +494,8 @@ func (m *bsim) checkImage(image bufimage.Image, ref map[string]*descriptorpb.Fil
 			if gotName != mod.Name {
 				m.violate("module-metadata", site, "%s: module name %q, expected %q", p, gotName, mod.Name)
 			}
-			if mod.Name != "" && f.CommitID() != mod.CommitID {
+			// (a module of a workspace on disk has a name but no commit)
+			if mod.Name != "" && f.CommitID() != mod.CommitID && !m.cliSite {
 				m.violate("module-metadata", site, "%s: commit id differs from its module's", p)
 			}
 		} else {
@@ -587,6 +600,10 @@ func Run(tp *tape.Tape, env *engine.Env) *engine.Outcome {
 	if m.prop == "C02" && ref != nil {
 		m.filterTypes = m.drawFilterTypes(ref)
 		m.withFormatDiff = tp.Draw("formatdiff", 4) == 3
+		m.withFormatBroken = tp.Draw("formatbroken", 3) == 2
+		if m.cliUsable() && tp.Draw("cli", 4) == 3 {
+			m.cliRoot = m.writeCLIWorkspace()
+		}
 	}
 	ntasks := len(m.ws.Files) + 6
 
@@ -609,6 +626,27 @@ func Run(tp *tape.Tape, env *engine.Env) *engine.Outcome {
 			return engine.FromSim(s)
 		}
 		m.checkImage(base.image, ref, "baseline")
+		// the same workspace on disk through the real command: `buf build <dir> --path ... -o file`
+		// (controller, workspace discovery, bucket targeting), once with the flags in canonical and
+		// once in a permuted order; free-running
+		if mode == "schedule" && m.prop == "C01" && m.cliUsable() && tp.Draw("cli", 4) == 3 {
+			m.cliRoot = m.writeCLIWorkspace()
+			for k := 0; k < 2; k++ {
+				m.permuteLists = k == 1
+				s.Unhashed = true
+				image, _, err := m.cliBuild(context.Background(), m.cliRoot)
+				s.Unhashed = false
+				if err != nil {
+					m.violate("exact-closure", "cli", "buf build of the same workspace on disk failed: %v", err)
+					break
+				}
+				m.cliSite = true
+				m.checkImage(image, ref, "cli")
+				m.cliSite = false
+			}
+			m.permuteLists = false
+			s.Probe("built-through-the-command-line")
+		}
 	}
 
 	rounds := 3
@@ -629,6 +667,8 @@ func Run(tp *tape.Tape, env *engine.Env) *engine.Outcome {
 		m.permuteLists = tp.Draw("permlists", 2) == 1
 		s.YieldJobs = tp.Draw("yieldjobs", 2) == 1
 		m.faults, m.cancelAt = false, 0
+		// readers that hand out fewer bytes than asked for (legal, no error) in some perturbed executions
+		m.shortReads = !ambient && tp.Draw("shortreads", 3) == 2
 		if mode == "fault" {
 			if tp.Draw("cancel", 4) == 3 {
 				m.cancelAt = 1 + tp.Draw("cancelat", len(m.ws.Files))
